@@ -129,6 +129,7 @@ class ListOf(D):
 
     def make(self, it, name, idx=()):
         n = it.path.choose([(n, True) for n in self.lengths], f"len:{name}")
+        it.path.bounded_inputs.add(f"{name}: list length <= {max(self.lengths)}")
         return [self.elt.make(it, f"{name}[{i}]", idx) for i in range(n)]
 
 
@@ -237,6 +238,39 @@ class DictOf(D):
         return d
 
 
+class KeyedDict(D):
+    """A dict with `sizes` many symbolic keys (pairwise distinct, distinct from the fixed literal keys) plus optional fixed keys.
+
+    Complete only for the listed sizes: obligations that depend on it are labelled bounded.
+    """
+
+    def __init__(self, key, value, sizes=(0, 1, 2), fixed=None, optional=None):
+        self.key = key
+        self.value = value
+        self.sizes = list(sizes)
+        self.fixed = fixed or {}
+        self.optional = optional or {}
+
+    def make(self, it, name, idx=()):
+        from .ops import eq, z_not
+
+        d = {}
+        for k, t in self.fixed.items():
+            d[k] = t.make(it, f"{name}[{k!r}]", idx)
+        for k, t in self.optional.items():
+            if it.path.choose([(False, True), (True, True)], f"key:{name}[{k!r}]"):
+                d[k] = t.make(it, f"{name}[{k!r}]", idx)
+        n = it.path.choose([(n, True) for n in self.sizes], f"size:{name}")
+        if max(self.sizes) > 0:
+            it.path.bounded_inputs.add(f"{name}: at most {max(self.sizes)} symbolic keys")
+        for i in range(n):
+            k = self.key.make(it, f"{name}.key{i}", idx)
+            for other in list(d.keys()):
+                it.path.assume(z_not(eq(other, k)))
+            d[k] = self.value.make(it, f"{name}.val{i}", idx)
+        return d
+
+
 class Callable_(D):
     """A callable argument modelled as an uninterpreted (pure) function or by a given contract name."""
 
@@ -256,7 +290,7 @@ class Contract:
     def __init__(self, target, args=None, requires=(), ensures=None, raises=(), modifies=(), returns=None, pure=False,
                  inline=False, invariants=None, trusted=False, prop=None, setup=None, ghost=None, varargs=None,
                  raises_ensures=None, note="", abstract_only=False, result_name=None, unroll=None, kind="function",
-                 concretize=None, native_setup=None, max_paths=None, bounded_note=None, effects=None, yield_effect=None, call_ensures=None):
+                 concretize=None, native_setup=None, max_paths=None, bounded_note=None, effects=None, yield_effect=None, call_ensures=None, replay_real=False):
         self.target = target
         self.args = args or {}
         self.requires = list(requires)
@@ -281,6 +315,7 @@ class Contract:
         self.max_paths = max_paths
         self.bounded_note = bounded_note
         self.call_ensures = call_ensures  # clauses assumed at call sites instead of `ensures` (an abstraction of them; listed as assumed)
+        self.replay_real = replay_real  # native replay leaves the real callee in place (inputs were concretized to agree with the model)
         self.effects = dict(effects or {})  # ghost updates performed by an abstract call: name -> clause
         self.yield_effect = yield_effect  # ghost updates at every `yield` of the function under verification: {name: clause over `event`}
 
